@@ -844,6 +844,13 @@ def make_kani_replay_hook(run, scratch, batches, max_harnesses=12):
                     if h == r["harness"] and (r["description"] in chk or (chk and chk in r["description"])):
                         pick = src
                         break
+                if pick is None:
+                    # Kani emits one playback test per failed check it could concretise; fall back to another failing
+                    # input of the same contract (it violates a sibling clause of the same obligation set)
+                    for h, chk, src in tests:
+                        if h == r["harness"] and "Check for `cover`" not in src:
+                            pick = src
+                            break
                 vals = re.findall(r"^\s*//\s*(.+)$\n\s*vec!\[([^\]]*)\]", pick or "", re.M)
                 mod = r["harness"].split("::")[-2] if "::" in r["harness"] else None
                 path = os.path.join(VERIF, "replays", run.prop, slug(r["contract"] + "__" + r["obligation"]) + ".json")
